@@ -52,6 +52,7 @@ type world struct {
 	lastBlockTxs  [][]byte
 	digestAt      map[uint64][]byte // raw state digest of the chain at each height (first observation)
 	lastNonce     map[string]uint64
+	govSeen       map[string]bool
 	msig          *multisig
 	daoMint       map[string]uint64 // DAO transfers that mint: tx bytes -> amount
 	mintedInBlock uint64
